@@ -6,11 +6,11 @@ CONSTANTS
   MaxTok = 2
   NRepl = 2
   NOwnRepl = 3
-  StatesRepl = {"ACTIVE", "PENDING", "LEAVING", "JOINING"}
+  StatesRepl = {"ACTIVE", "LEAVING", "JOINING"}
   AgesRepl = {1, 2, 3}
   NMulti = 1
-  NOwnMulti = 4
-  StatesMulti = {"ACTIVE"}
+  NOwnMulti = 3
+  StatesMulti = {"ACTIVE", "LEAVING"}
   AgesMulti = {2, 3}
   T = 2
 INIT Init
